@@ -354,7 +354,7 @@ pub fn run_all(rounds: u64) -> Vec<String> {
     // 17. park / unpark and thread identities: a parked worker is woken by unpark (also
     //     when the unpark comes first), ids differ between live threads, park_timeout ends
     //     on the virtual clock
-    let o = run(cfg(walk), move || {
+    let op = run(cfg(walk), move || {
       use crate::stdx::sync::atomic::{AtomicUsize, Ordering};
       let hits = Arc::new(AtomicUsize::new(0));
       let h2 = hits.clone();
@@ -377,8 +377,8 @@ pub fn run_all(rounds: u64) -> Vec<String> {
       thread::park_timeout(Duration::from_secs(5));
       assert!(t0.elapsed() >= Duration::from_secs(5));
     });
-    if o.kind != Kind::Done {
-      fails.push(format!("park: {}", o.describe()));
+    if op.kind != Kind::Done {
+      fails.push(format!("park: {}", op.describe()));
     }
 
     let n = lost.load(std::sync::atomic::Ordering::SeqCst);
